@@ -20,7 +20,7 @@ from ..common import Ctx
 LEVEL = "exploration"
 SHARDS = {"quick": 16, "thorough": 16}
 FLOOR = {"quick": 150, "thorough": 3000}
-REQUIRED_COUNTERS = ["noop_reruns_host_variants", "tree_pairs_compared", "fresh_process_generations", "hash_seeds_distinct", "noop_reruns", "files_mtime_checked",
+REQUIRED_COUNTERS = ["noop_reruns_host_variants", "noop_reruns_postprocessed", "tree_pairs_compared", "fresh_process_generations", "hash_seeds_distinct", "noop_reruns", "files_mtime_checked",
                      "tamper_edit_checks", "tamper_delete_checks", "show_diffs_contract_evals", "explicit_core_layouts", "clock_shifted_runs", "prior_run_scenarios",
                      "spec_rewritten_in_place_scenarios"]
 RULE = ("clean documents biased to what makes order matter (many schemas/imports, several path variables, colliding operationIds, inline "
@@ -283,6 +283,12 @@ LAYOUTS = [("client1", None), ("acme.client1", None), ("acme.client1", "acme.cor
            ("client1", "client1_core"), ("acme.shop", "acme.shop_core")]
 
 
+# layouts of the post-processed scenario: import sorting looks at package structure, so the core lives under ANOTHER top-level
+# package, under the same one, inside the client, and beside a one-level client
+PP_LAYOUTS = [("acme.apis.client1", "corepkg.rt.core"), ("acme.client1", "acme.core"), ("acme.apis.client1", None), ("client1", "sharedcore")]
+LAYOUTS.append(PP_LAYOUTS[0])
+
+
 def mk_doc(ctx: Ctx) -> specgen.Doc:
     if ctx.rng.random() < 0.15:
         # discriminated unions whose variants pin the discriminator with an inline one-value enum (the models step treats
@@ -308,15 +314,74 @@ def mk_doc(ctx: Ctx) -> specgen.Doc:
     return d
 
 
+def run_postprocessed(ctx: Ctx, d: specgen.Doc, n: int, layout: tuple[str, str | None]) -> None:
+    """The same claims through the real command line with post-processing ON (the default: ruff rewrites every emitted
+    file in child processes): two forced generations under different hash seeds, from different working directories, into
+    different roots must agree byte for byte, and a re-run without --force must be a no-op from either working directory."""
+    from . import c10
+
+    rec = ctx.rec
+    pkg, core = layout
+    tops = sorted({pkg.split(".")[0]} | ({core.split(".")[0]} if core else set()))
+    feats = sorted(d.features) + ["postprocess_on"]
+    case = {"doc": d.doc, "layout": list(layout), "scenario": "postprocess_cli"}
+    work = ctx.scratch.new("c09pp")
+    spec = genrun.write_spec(d.doc, work / "spec")
+    ra, rb, neutral = work / "a" / "proj", work / "b" / "proj", work / "neutral"
+    for x in (ra, rb, neutral):
+        x.mkdir(parents=True)
+
+    def cli(root: Path, cwd: Path, force: bool, hashseed: str):
+        env = c10.cli_env(ctx)
+        env["PYTHONHASHSEED"] = hashseed
+        root_arg = "." if cwd == root else str(root)
+        try:
+            r = subprocess.run(c10.cli_cmd(spec, root_arg, pkg, core, force), cwd=str(cwd), env=env, capture_output=True, text=True, timeout=900)
+        except subprocess.TimeoutExpired:
+            return None
+        rec.count("postprocess_cli_runs")
+        return r
+
+    r1 = cli(ra, neutral, True, "1")
+    r2 = cli(rb, rb, True, "2")
+    if r1 is None or r2 is None or r1.returncode != 0 or r2.returncode != 0:
+        rec.count("postprocess_generations_rejected")
+        return
+    rec.case(dict(case, variant="two forced generations"), nontrivial=True)
+    rec.count("tree_pairs_compared")
+    ta, tb = digest(ra, tops), digest(rb, tops)
+    dd = diff_trees(ta, tb)
+    if dd:
+        rec.violation(f"determinism:postprocess:{classify_changed(dd)}", feats, dict(case, variant="hash seed / cwd / root"), dd)
+    for root, cwd, label in ((ra, neutral, "cwd_elsewhere"), (rb, rb, "cwd_is_project_root"), (ra, ra, "cwd_is_project_root_after_elsewhere")):
+        before = digest(root, tops, with_mtime=True)
+        r = cli(root, cwd, False, "3")
+        rec.count("noop_reruns_postprocessed")
+        rec.case(dict(case, variant=f"non-force re-run {label}"), nontrivial=True)
+        if r is None:
+            continue
+        if r.returncode != 0:
+            rec.violation(f"rerun:postprocess:up_to_date_output_reported_as_different:{label}", feats, dict(case, variant=label), r.stderr[-300:])
+        elif digest(root, tops, with_mtime=True) != before:
+            rec.violation(f"rerun:postprocess:files_touched:{label}", feats, dict(case, variant=label), "")
+
+
 def run_shard(ctx: Ctx) -> None:
     install_contract()
     total = 2 if ctx.quick else 40
     for b in range(total):
         run_doc(ctx, mk_doc(ctx), ctx.shard * 1000 + b, LAYOUTS[(ctx.shard + b) % len(LAYOUTS)])
+    # post-processing ON through the command line: a quarter of the shards in the quick tier, every shard in the thorough one
+    if not ctx.quick or ctx.shard % 4 == 1:
+        for b in range(1 if ctx.quick else 4):
+            run_postprocessed(ctx, mk_doc(ctx), ctx.shard * 1000 + 900 + b, PP_LAYOUTS[(ctx.shard // 4 + b) % len(PP_LAYOUTS)])
 
 
 def replay(ctx: Ctx, file: dict) -> None:
     install_contract()
     c = file["case"]
     d = specgen.Doc(c["doc"], {}, [], set())
+    if c.get("scenario") == "postprocess_cli":
+        run_postprocessed(ctx, d, 1, (c["layout"][0], c["layout"][1]))
+        return
     run_doc(ctx, d, 1, (c["layout"][0], c["layout"][1]))
